@@ -9,7 +9,7 @@ REQ = "From SCK Require Import ElicitM ElicitRules RunElicit."
 KINDS = ["unit", "skew", "ties", "zero", "straddle"]
 
 class C14(Prop):
-    translators = ['elicitor', 'bsearch']   # the three binary_search functions and Elicitor.__init__ / Elicitor.elicit regenerated from elicitation_utils.py on every run
+    translators = ['elicitor', 'bsearch', 'rootn']   # the three binary_search functions and Elicitor.__init__ / Elicitor.elicit regenerated from elicitation_utils.py on every run
     pid = "C14"
     sources = ["socialchoicekit/elicitation_voting.py", "socialchoicekit/elicitation_allocation.py", "socialchoicekit/elicitation_matching.py",
                "socialchoicekit/deterministic_allocation.py", "socialchoicekit/elicitation_utils.py"]
